@@ -6,5 +6,6 @@ META = {
             'obligations over symbolic operation sequences. A wrong memo key or stale entry only shows when the same rule is retried at the same '
             'position after backtracking, which the solver enumerates as input classes.',
     'note': 'Reference-free (both sides are the real code); trusted: CrossHair/z3 models validated per path natively; tracer output discarded. '
-            'Capacity 1 is reached on one-line texts only (capacity scales with the line count).',
+            'Capacity 1 is reached on one-line texts only (capacity scales with the line count). Outcome, AST, failure position and error class are compared; known '
+            'finding F40 (the error CLASS differs under memoization when two failures tie at the furthest position) is identified by signature (same position, only the class differs).',
 }
